@@ -30,6 +30,10 @@ class TypeNormalizer:
     def __call__(self, t, fn):
         from .dependent import DependentType
 
+        if isinstance(t, typing.ForwardRef):
+            # A string nested in a typing construct, e.g. Optional["A"]
+            t = t.__forward_arg__
+
         if isinstance(t, str):
             t = eval(t, getattr(fn, "__globals__", {}))
 
